@@ -91,3 +91,15 @@ Lemma P_infnorm_witness_values :
   c09_v_infnorm c09w_T c09w_T (c09w_q 0) c09w_abs c09w_add c09w_mul c09w_div c09w_lt (c09w_q 0) (c09w_q 1) 1 true c09w_N = [None] /\
   c09_s_infnorm c09w_T c09w_T c09w_abs c09w_add c09w_mul c09w_div c09w_lt (c09w_q 0) (c09w_q 1) true (c09_lane_mat c09w_T (c09w_q 0) 0 c09w_N) = None.
 Proof. vm_compute. split; [|split]; reflexivity. Qed.
+
+(* ---- v -= v[0] on (5, 7, 9): operands read before the operation give (0, 2, 4); re-reading the aliased lane gives (0, 7, 9) ---- *)
+Lemma P_assign_byref_refuted :
+  exists (f : nat -> nat -> nat) (v : list nat) (k : nat), (k < length v)%nat /\
+    c09_assign_vs_lane_byref f 0%nat v k <> fst (c09_assign_vs_lane f 0%nat v k).
+Proof. exists Nat.sub, [5; 7; 9]%nat, 0%nat. split; [simpl; lia|]. vm_compute. discriminate. Qed.
+
+Lemma P_assign_alias_values :
+  fst (c09_assign_vs_lane Nat.sub 0%nat [5; 7; 9]%nat 0) = [0; 2; 4]%nat /\
+  c09_assign_vs_lane_byref Nat.sub 0%nat [5; 7; 9]%nat 0 = [0; 7; 9]%nat /\
+  c09_assign_vs_lane_byref Nat.sub 0%nat [5; 7; 9]%nat 2 = fst (c09_assign_vs_lane Nat.sub 0%nat [5; 7; 9]%nat 2).
+Proof. vm_compute. split; [|split]; reflexivity. Qed.
